@@ -61,3 +61,40 @@ CONTRACTS["model:TimedLink.preallocate#out_of_a_timed_compartment"] = dict(
     schema=schema, make_env=_env_timedlink, class_module="model",
     ensures=[("C05+C01.the_flow_matrix_has_the_shape_of_its_source", "self._vals.shape[0] == r and self._vals.shape[1] == n and self.t is tvec and self.dt == DT")],
     defined_props=["C05", "C01"])
+
+
+# ---- Model.update_comps (C01: the stock update of a step): every compartment of every population is stepped exactly once, at the current index, population by population
+def _env_update_comps(it):
+    from pyvc.interp import PyObjV
+    from pyvc import source
+
+    mm = source.load("model")
+    comps = {n: PyObjV("Compartment", mm, {"name": n}) for n in ("a0", "a1", "b0")}
+    pops = [PyObjV("Population", mm, {"name": "a", "comps": [comps["a0"], comps["a1"]]}), PyObjV("Population", mm, {"name": "b", "comps": [comps["b0"]]})]
+    return {"self": PyObjV("Model", mm, {"pops": pops, "_t_index": 7}), "STEPPED": []}
+
+
+CONTRACTS["model:Model.update_comps"] = dict(
+    schema=schema, make_env=_env_update_comps, call_stubs={"comp.update": (lambda it, ti: it.live_env["STEPPED"].append((it.stub_receiver.fields["name"], ti)))},
+    ensures=[("C01.every_compartment_is_stepped_once_at_the_current_index", "STEPPED == [('a0', 7), ('a1', 7), ('b0', 7)] and self._t_index == 7")], defined_props=["C01"])
+
+
+# ---- Population.popsize at one time index (C06: the weights of population aggregations): the people in the population's compartments, sources and sinks excluded
+def _env_popsize(it):
+    import z3
+    from pyvc.interp import PyObjV
+    from pyvc.core import LArr
+    from pyvc import source
+
+    mm = source.load("model")
+    v = {n: z3.Real("size_" + n) for n in ("sus", "inf", "births", "dead")}
+    mk = lambda cls, n: PyObjV(cls, mm, {"name": n, "vals": LArr(4, lambda i, x=v[n]: x)})
+    comps = [mk("Compartment", "sus"), mk("SourceCompartment", "births"), mk("Compartment", "inf"), mk("SinkCompartment", "dead")]
+    env = {"self": PyObjV("Population", mm, {"name": "pop", "comps": comps, "popsize_cache_time": None, "popsize_cache_val": None}), "ti": 2}
+    env.update({"size_" + n: x for n, x in v.items()})
+    return env
+
+
+CONTRACTS["model:Population.popsize#at_one_time"] = dict(
+    schema=schema, make_env=_env_popsize,
+    ensures=[("C06.the_population_size_counts_every_compartment_except_sources_and_sinks", "result == size_sus + size_inf")], defined_props=["C06"])
